@@ -63,11 +63,11 @@ type ActionDef struct {
 }
 
 type Desc struct {
-	Mode       string       `json:"mode"`
-	Exit       []uint16     `json:"exit"`
+	Mode string   `json:"mode"`
+	Exit []uint16 `json:"exit"`
 	// TwinNodes: sub-handler names for which the device has a second event node with the same name (not part of the
 	// configuration file: the configuration cannot tell the two nodes apart)
-	TwinNodes []string `json:"twin_nodes,omitempty"`
+	TwinNodes  []string     `json:"twin_nodes,omitempty"`
 	ID         [4]uint16    `json:"id"` // bus vendor product version
 	Uniq       string       `json:"uniq"`
 	Octave     int          `json:"octave"`
